@@ -1030,7 +1030,7 @@ def gen_selfref_big(rng, tier):
     consistency check and of the tree printer grows with the section (len/16), so only the depth limit keeps the
     recursion shallow (round-6 change C03-r6-1 stopped counting the depth: the walk then nests len/16 deep)"""
     cases = []
-    for size in ((1 << 20),) if tier == "quick" else ((1 << 20), (1 << 21), (1 << 22)):
+    for size in ((1 << 20),) if tier == "quick" else ((1 << 20), (1 << 21)):
         for nent in (1, 2):
             root = struct.pack("<IIHHHH", 0, 0, 0, 0, 0, nent)
             for i in range(nent):
